@@ -68,7 +68,9 @@ ZSTD_compressSubBlock_literal(const HUF_CElt* hufTable,
     assert(litSize > 0);
     assert(hufMetadata->hType == set_compressed || hufMetadata->hType == set_repeat);
 
+    RETURN_ERROR_IF(dstSize < lhSize + 1, dstSize_tooSmall, "not enough space for the literals header");
     if (writeEntropy && hufMetadata->hType == set_compressed) {
+        RETURN_ERROR_IF(hufMetadata->hufDesSize > (size_t)(oend - op), dstSize_tooSmall, "not enough space for the Huffman table");
         ZSTD_memcpy(op, hufMetadata->hufDesBuffer, hufMetadata->hufDesSize);
         op += hufMetadata->hufDesSize;
         cLitSize += hufMetadata->hufDesSize;
